@@ -6,6 +6,8 @@ FAIL=0
 for d in seeded/*/; do
   id=$(basename $d)
   if [ $# -gt 0 ] && ! echo " $* " | grep -q " $id "; then continue; fi
+  sup=$(python3 -c "import json;print(json.load(open('$d/meta.json')).get('superseded_by_fix',''))")
+  if [ -n "$sup" ]; then echo "SELFTEST $id: superseded by fix $sup (the change is no longer a fault on this tree)"; continue; fi
   checks=$(python3 -c "import json;print(' '.join(json.load(open('$d/meta.json'))['caught_by']))")
   out=$(tools/seedtest.sh $d/patch.diff $checks 2>&1)
   suite=$(echo "$out" | grep -c "81 passed")
